@@ -1072,6 +1072,8 @@ typedef struct
     unsigned char majVer;
     unsigned char minVer;
     short extendedMasterSecret;           /* was the extension used? */
+    unsigned char clientAuthed;           /* was the client authenticated when
+                                             the session was established? */
     psTime_t startTime;
     int32 inUse;
     DLListEntry chronList;
@@ -1195,6 +1197,8 @@ struct ssl
 
     unsigned char sessionIdLen;
     unsigned char sessionId[SSL_MAX_SESSION_ID_SIZE];
+    unsigned char sessClientAuthed;   /* Server: the session being resumed was
+                                         established with client authentication */
     unsigned char sessCacheHeld;      /* Server: this session holds a reference
                                          to the session table entry that
                                          sessionId indexes (it registered or
